@@ -86,6 +86,12 @@ NPKINDS = ['np', 'np:uint64', 'np:uint32', 'np:int32', 'np:uint8', 'np:intp', 'n
 PYKINDS = ['py', 'py', 'py:step1', 'py', 'py:tuple1']
 
 
+def _entry(e):
+    """an index expression of a case: [item, cols, kind] or [item, cols, kind, [c1, c2, ...]] - the latter is
+    evaluated on the derived reader reader[:, c1][:, c2]..."""
+    return e[0], e[1], e[2], (e[3] if len(e) > 3 else [])
+
+
 def impl(case):
     from phylib.io.traces import get_ephys_reader
     parts, nch, dtype, backend = case['parts'], case['nch'], case['dtype'], case['backend']
@@ -142,12 +148,16 @@ def impl(case):
                      n_channels=int(r.n_channels), dtype=str(np.dtype(r.dtype)),
                      duration=float(r.duration), part_bounds=[int(x) for x in r.part_bounds])
         res = []
-        for it, c, kind in case['items']:
+        for it, c, kind, pre in map(_entry, case['items']):
             item, cols = _pyitem(it, kind), _pycols(c, kind)
             if kind == 'py:tuple1' and cols is None:
                 item = (item,)            # reader[(i,)]: a one-element index tuple
             keep = (repr(item), repr(cols))
             try:
+                r0 = r
+                for c1 in pre:
+                    # successive deferred channel selections: each returns a derived reader
+                    r = r[:, _pycols(c1, kind)]
                 out = r[item] if cols is None else r[item, cols]
                 if hasattr(out, '_append_op'):
                     # reader[:, cols] is a derived reader (C02); observe it through indexing
@@ -170,6 +180,8 @@ def impl(case):
                 res.append(rec)
             except Exception as e:  # noqa
                 res.append(dict(raised=type(e).__name__, msg=str(e)[:200]))
+            finally:
+                r = r0
         del r
         if rd is not None:
             rd.close()
@@ -198,7 +210,8 @@ def model_query(case, impl_res):
     sr = case.get('sr', 100.)
     src = (impl_res.get('ok') or {}).get('src') or {}
     q = dict(p=PID, op='reader', backend=backend, parts=parts, nch=nch, dtype=dtype, rate=_rat(sr),
-             items=[[it, lean_cols(c)] for it, c, kind in case['items']])
+             items=[[it, lean_cols(c)] + ([[lean_cols(c1) for c1 in pre]] if pre else [])
+                    for it, c, kind, pre in map(_entry, case['items'])])
     if backend == 'flat':
         isz = np.dtype(dtype).itemsize
         q.update(offset=case.get('offset', 0), itemsize=isz,
@@ -219,9 +232,12 @@ def oracle(case):
     n = sum(case['parts'])
     ids = np.arange(n * case['nch']).reshape((n, case['nch']))
     out = []
-    for it, c, kind in case['items']:
+    for it, c, kind, pre in map(_entry, case['items']):
         item, cols = _pyitem(it, 'py'), _pycols(c, 'py')
-        rows = ids[item]
+        B = ids
+        for c1 in pre:
+            B = B[:, _pycols(c1, 'py')]      # A[:, c1][:, c2]... then the rows, then the final selector
+        rows = B[item]
         if rows.ndim == 1:
             rows = rows[np.newaxis, :]
         if cols is not None:
@@ -306,7 +322,9 @@ def tally(rep, case, impl_res, ans):
     rep.count('dtype:' + case['dtype'])
     rep.count('parts:%d' % min(len(case['parts']), 6))
     rep.count('index_expressions', len(case['items']))
-    for it, c, kind in case['items']:
+    for it, c, kind, pre in map(_entry, case['items']):
+        if pre:
+            rep.count('derived_reader:%d deferred selection(s) then %s' % (len(pre), 'rows' if c is None else 'rows+cols'))
         rep.count('item:' + next(iter(it)))
         rep.count('cols:' + ('none' if c is None else next(iter(c))))
         rep.count('index_type:' + kind)
@@ -320,7 +338,7 @@ def tally(rep, case, impl_res, ans):
 
 
 def classify(case, impl_res, ans, why):
-    it, c, kind = case['items'][0] if case['items'] else ({}, None, '')
+    it, c, kind, pre = _entry(case['items'][0]) if case['items'] else ({}, None, '', [])
     raised = None
     if 'ok' in impl_res and impl_res['ok']['res'] and 'raised' in impl_res['ok']['res'][0]:
         raised = impl_res['ok']['res'][0]['raised']
@@ -332,6 +350,17 @@ def classify(case, impl_res, ans, why):
 
 
 def shrink(case):
+    """candidates of `_shrink` on which NumPy itself accepts the index expressions (dropping a deferred selection
+    changes the width the following selectors refer to)"""
+    for c in _shrink(case):
+        try:
+            oracle(c)
+        except Exception:  # noqa
+            continue
+        yield c
+
+
+def _shrink(case):
     items = case['items']
     if len(items) > 1:
         for i in range(len(items)):
@@ -340,7 +369,12 @@ def shrink(case):
         return
     parts = case['parts']
     n = sum(parts)
-    it, cs, kind = items[0]
+    it, cs, kind, pre = _entry(items[0])
+    if pre:
+        # fewer deferred selections first
+        for i in range(len(pre)):
+            c = dict(case); c['items'] = [[it, cs, kind, pre[:i] + pre[i + 1:]]]
+            yield c
 
     def ok_item(it, n):
         if 'int' in it:
@@ -360,11 +394,11 @@ def shrink(case):
                 c = dict(case); c['parts'] = p2
                 yield c
     if cs is not None:
-        c = dict(case); c['items'] = [[it, None, kind]]
+        c = dict(case); c['items'] = [[it, None, kind, pre]]
         yield c
     if 'list' in it and len(it['list']) > 1:
         for i in range(len(it['list'])):
-            c = dict(case); c['items'] = [[dict(list=it['list'][:i] + it['list'][i + 1:]), cs, kind]]
+            c = dict(case); c['items'] = [[dict(list=it['list'][:i] + it['list'][i + 1:]), cs, kind, pre]]
             yield c
     if case['dtype'] != 'int16':
         c = dict(case); c['dtype'] = 'int16'
@@ -413,6 +447,28 @@ def col_selectors(nch, rng):
     return sel
 
 
+def _width(nch, c):
+    return len(np.arange(nch)[_pycols(c, 'py')]) if c is not None else nch
+
+
+def chained(nch, items, rng, k):
+    """index expressions on derived readers: r1 = reader[:, c1]; r1[rows, c2]   and   reader[:, c1][:, c2][rows]
+    with selections that do not commute (permutations, reversed slices, index lists and masks of different widths)"""
+    out = []
+    for j in range(k):
+        c1 = rng.pick([c for c in col_selectors(nch, rng) if c is not None])
+        w1 = _width(nch, c1)
+        c2 = rng.pick([c for c in col_selectors(w1, rng) if c is not None])
+        it = rng.pick(items)
+        kind = rng.pick(['py', 'py', 'np'])
+        out.append([it, c2, kind, [c1]])
+        out.append([it, None, kind, [c1, c2]])
+        if j % 3 == 0:
+            c3 = rng.pick([c for c in col_selectors(_width(w1, c2), rng) if c is not None])
+            out.append([it, c3, kind, [c1, c2]])
+    return out
+
+
 def gen(tier, rng):
     q = tier == 'quick'
     N = 5 if q else 7
@@ -433,6 +489,7 @@ def gen(tier, rng):
                     its.append([it, sels[(j + k) % len(sels)], kind])
                     if (j + k) % 5 == 0:
                         its.append([it, None, kind])
+                its += chained(nch, items, rng, 2 if nch == 1 else 6)
                 yield dict(p=PID, backend='flat', parts=parts, nch=nch, dtype=dtype,
                            offset=[0, 7, isz * nch * 2, 1][k % 4], sr=[100., 1000., 2.5][k % 3], items=its,
                            aslist=bool(k % 2), names=['idx', 'rev', 'nat'][k % 3],
@@ -448,6 +505,7 @@ def gen(tier, rng):
                 # compressed files: index lists too (the decoder has to refuse them or answer as NumPy does)
                 kind = NPKINDS[(j + k) % len(NPKINDS)] if (j + k) % 3 == 0 else PYKINDS[(j + k) % len(PYKINDS)]
                 its.append([it, sels[(j + k) % len(sels)], kind])
+            its += chained(nch, [it for it in items if backend != 'cbin' or 'list' not in it], rng, 4)
             c = dict(p=PID, backend=backend, parts=[n], nch=nch, dtype=dtype, sr=[10., 100., 1 / 256][k % 3 if backend != 'cbin' else k % 2],
                      cd=[1., .2][k % 2], items=its, npy_order='C')
             yield c
@@ -485,6 +543,7 @@ def gen(tier, rng):
                 cand |= {x for x in (rng.pick(b[:-1]), rng.pick(b[1:]) - 1) if 0 <= x < n}
                 it = dict(list=sorted(cand))
             its.append([it, rng.pick(sels), rng.pick(PYKINDS + NPKINDS)])
+        its += chained(nch, [e[0] for e in its], rng, 3)
         # sample rates: usual ones (one chunk) and slow ones whose 600 s chunk is 21 / 37.5 / 112.5 / 9.375 samples, so
         # that n_samples = chunk_bounds[-1] is the end of a real chunk list
         yield dict(p=PID, backend='flat', parts=parts, nch=nch, dtype=dtype, offset=rng.pick([0, 0, 5, 128]),
